@@ -231,6 +231,7 @@ proof fn lemma_bs_neg_mid(a0: int, a1: int, d0: int, d1: int, neg: bool, be: int
 }
 
 /// state of a carry-propagating window addition  out[off + k] += src[k]  for k in lo..i  (carry pending at off + i):
+#[verifier::opaque]
 pub open spec fn adc_win(out: Seq<Limb>, o0: Seq<Limb>, src: Seq<Limb>, off: nat, lo: nat, i: nat, carry: int, cin: int) -> bool {
     val(out, off + i) + carry * bp(off + i) == val(o0, off + i) + cin * bp(off + lo) + val(src, i) * bp(off) - val(src, lo) * bp(off)
 }
@@ -243,6 +244,7 @@ proof fn lemma_bs_adc_step(oa: Seq<Limb>, ob: Seq<Limb>, o0: Seq<Limb>, src: Seq
         adc_win(ob, o0, src, off, lo, i, ci, cin),
     ensures adc_win(oa, o0, src, off, lo, i + 1, cout, cin)
 {
+    reveal(adc_win);
     let k = off + i; let a = ob[k as int].0 as int; let x = src[i as int].0 as int; let pk = bp(k);
     lemma_bs_limb_step(oa, ob, k, cout, a + x + ci);
     lemma_bp_add(off, i);
@@ -259,7 +261,15 @@ proof fn lemma_bs_adc_done(out: Seq<Limb>, o0: Seq<Limb>, src: Seq<Limb>, off: n
         adc_win(out, o0, src, off, lo, hi, carry, cin),
     ensures val(out, t) + carry * bp(off + hi) == val(o0, t) + cin * bp(off + lo) + val(src, hi) * bp(off) - val(src, lo) * bp(off)
 {
+    reveal(adc_win);
     lemma_tv_ext(out, o0, off + hi, t);
+}
+
+/// start of a window loop (carry c pending at off + lo)
+proof fn lemma_bs_adc_init(o: Seq<Limb>, src: Seq<Limb>, off: nat, lo: nat, c: int)
+    ensures adc_win(o, o, src, off, lo, lo, c, c)
+{
+    reveal(adc_win);
 }
 
 /// the six window additions of karatsuba_mul_limbs put together (β = B^half, ps = B^size, …):
@@ -722,6 +732,9 @@ pub fn karatsuba_mul_limbs(
         assert((2 * s - 0) as nat == 2 * s);
         assert(p2s == ps * ps);
         assert(ps * ps >= be * (be * be)) by (nonlinear_arith) requires ps == be * be, be >= 1;
+        assert(nv == (if z1_neg.t() { (p2s - vmid) % p2s } else { vmid }));
+        assert(z1_neg.t() == ((d0 < 0) != (d1 < 0)));
+        assert(0 <= a0 < be && 0 <= a1 < be);
         e = lemma_bs_neg_mid(a0, a1, d0, d1, z1_neg.t(), be, p2s, vmid, nv);
         assert(forall|k: int| 2 * s <= k < ll ==> o3[k].0 == 0);
     }
@@ -734,12 +747,13 @@ pub fn karatsuba_mul_limbs(
     i = 0;
 //@+
     let ghost z0 = scratch@;
-    proof { assert(val(z0, 0) == 0); }
+    proof { assert(val(z0, 0) == 0); lemma_bs_adc_init(o3, z0, 0, 0, 0); }
 //@-
     while i < size
 //@+
         invariant i <= s, s == size, 2 * s <= ll, out.len() == ll, o3.len() == ll, scratch.len() == s, carry.0 <= 2,
             forall|k: int| i <= k < ll ==> out@[k] == o3[k],
+            forall|k: int| 2 * s <= k < ll ==> out@[k].0 == 0,
             adc_win(out@, o3, scratch@, 0, 0, i as nat, carry.0 as int, 0),
         decreases s - i
 //@-
@@ -756,12 +770,13 @@ pub fn karatsuba_mul_limbs(
     i = 0;
 //@+
     let ghost o4 = out@; let ghost v1 = val(o4, 2 * s); let ghost ca = carry.0 as int;
-    proof { lemma_bs_adc_done(o4, o3, z0, 0, 0, s, 2 * s, ca, 0); }
+    proof { lemma_bs_adc_done(o4, o3, z0, 0, 0, s, 2 * s, ca, 0); lemma_bs_adc_init(o4, z0, h, 0, 0); }
 //@-
     while i < half
 //@+
         invariant i <= h, h == half, h + h == s, 2 * s <= ll, out.len() == ll, o4.len() == ll, scratch.len() == s, carry2.0 <= 2,
             forall|k: int| h + i <= k < ll ==> out@[k] == o4[k],
+            forall|k: int| 2 * s <= k < ll ==> out@[k].0 == 0,
             adc_win(out@, o4, scratch@, h, 0, i as nat, carry2.0 as int, 0),
         decreases h - i
 //@-
@@ -780,7 +795,7 @@ pub fn karatsuba_mul_limbs(
     proof {
         lemma_bs_adc_done(o5, o4, z0, h, 0, h, 2 * s, cb, 0);
         lemma_small_mod((ca + cb) as nat, B() as nat);
-        assert(adc_win(o5, o5, z0, h, h, h, ca + cb, ca + cb));
+        lemma_bs_adc_init(o5, z0, h, h, ca + cb);
     }
 //@-
     carry = carry.wrapping_add(carry2);
@@ -788,6 +803,7 @@ pub fn karatsuba_mul_limbs(
 //@+
         invariant h <= i <= s, h == half, s == size, h + h == s, 2 * s <= ll, out.len() == ll, o5.len() == ll, scratch.len() == s, carry.0 <= 4,
             forall|k: int| h + i <= k < ll ==> out@[k] == o5[k],
+            forall|k: int| 2 * s <= k < ll ==> out@[k].0 == 0,
             adc_win(out@, o5, scratch@, h, h, i as nat, carry.0 as int, ca + cb),
         decreases s - i
 //@-
@@ -812,12 +828,13 @@ pub fn karatsuba_mul_limbs(
     i = 0;
 //@+
     let ghost z2 = scratch@;
-    proof { assert(val(z2, 0) == 0); }
+    proof { assert(val(z2, 0) == 0); lemma_bs_adc_init(o6, z2, h, 0, 0); }
 //@-
     while i < size
 //@+
         invariant i <= s, h == half, s == size, h + h == s, 2 * s <= ll, out.len() == ll, o6.len() == ll, scratch.len() == s, carry2.0 <= 2,
             forall|k: int| h + i <= k < ll ==> out@[k] == o6[k],
+            forall|k: int| 2 * s <= k < ll ==> out@[k].0 == 0,
             adc_win(out@, o6, scratch@, h, 0, i as nat, carry2.0 as int, 0),
         decreases s - i
 //@-
@@ -836,6 +853,7 @@ pub fn karatsuba_mul_limbs(
     proof {
         lemma_bs_adc_done(o7, o6, z2, h, 0, s, 2 * s, cd, 0);
         lemma_small_mod((cc + cd) as nat, B() as nat);
+        lemma_bs_adc_init(o7, z2, s, 0, 0);
     }
 //@-
     carry = carry.wrapping_add(carry2);
@@ -845,6 +863,7 @@ pub fn karatsuba_mul_limbs(
 //@+
         invariant i <= h, h == half, s == size, h + h == s, 2 * s <= ll, out.len() == ll, o7.len() == ll, scratch.len() == s, carry2.0 <= 2,
             forall|k: int| s + i <= k < ll ==> out@[k] == o7[k],
+            forall|k: int| 2 * s <= k < ll ==> out@[k].0 == 0,
             adc_win(out@, o7, scratch@, s, 0, i as nat, carry2.0 as int, 0),
         decreases h - i
 //@-
@@ -863,14 +882,15 @@ pub fn karatsuba_mul_limbs(
     proof {
         lemma_bs_adc_done(o8, o7, z2, s, 0, h, 2 * s, ce, 0);
         lemma_small_mod((cc + cd + ce) as nat, B() as nat);
-        assert(adc_win(o8, o8, z2, s, h, h, cc + cd + ce, cc + cd + ce));
+        lemma_bs_adc_init(o8, z2, s, h, cc + cd + ce);
     }
 //@-
     carry = carry.wrapping_add(carry2);
     while i < size
 //@+
-        invariant h <= i <= s, h == half, s == size, h + h == s, 2 * s <= ll, out.len() == ll, o8.len() == ll, scratch.len() == s, carry.0 <= 6,
+        invariant h <= i <= s, h == half, s == size, h + h == s, 2 * s <= ll, out.len() == ll, o8.len() == ll, scratch.len() == s, carry.0 <= 8,
             forall|k: int| s + i <= k < ll ==> out@[k] == o8[k],
+            forall|k: int| 2 * s <= k < ll ==> out@[k].0 == 0,
             adc_win(out@, o8, scratch@, s, h, i as nat, carry.0 as int, cc + cd + ce),
         decreases s - i
 //@-
@@ -894,7 +914,6 @@ pub fn karatsuba_mul_limbs(
             val(z0, 0), val(z0, h), val(z0, s), val(z2, 0), val(z2, h), val(z2, s),
             v1, ca, v2, cb, v3, cc, v4, cd, v5, ce, v6, cf);
         assert(v6 == xv * yv);
-        assert(forall|k: int| 2 * s <= k < ll ==> o9[k].0 == 0);
         lemma_val_hi_zero(o9, 2 * s, ll);
         lemma_bs_tail(xv, xtv, yv, ytv, ps, lhsv, rhsv);
     }
